@@ -233,6 +233,8 @@ class System:
                 out += self.call(w, mapping, as_points, exp, rec, head, who, "complete%s" % ("-points" if as_points else ""))
             mn = {n: val(n, 0.25) for n in m.required()}
             out += self.call(w, mn, False, m.bind({n: vid(v) for n, v in mn.items()}), rec, head, who, "minimal")
+            if self.clsname == "user" and m.params and m.required():
+                out += self.call_vectorized(w, m, rec, head, who)
             if m.required():
                 miss = {n: val(n, 0.25) for n in m.required()[1:]}
                 miss["e"] = val("e", 0.25)
@@ -241,6 +243,25 @@ class System:
             if not torch.equal(user_defaults[k], ud_before[k]):
                 out.append(("C13|user-defaults-changed", "%s: a default value object of the user's function was modified" % head))
         return out
+
+    def call_vectorized(self, w, m, rec, head, who):
+        """vectorize=True: the function is called once per batch row, still by NAME, defaults for absent optional names"""
+        mapping = {n: val(n, 0.25) for n in m.required()}          # optional names absent
+        del rec[:]
+        try:
+            res = w(dict(mapping), vectorize=True)
+        except Exception as e:
+            return [("C13|error|%s|call-vectorized" % type(e).__name__, "%s: vectorised call with %s raised %s: %s" % (head, list(mapping), type(e).__name__, str(e)[:80]))]
+        if len(rec) != 2:
+            return [("C13|vectorized-rows", "%s: vectorised call evaluated the function %d times for 2 rows" % (head, len(rec)))]
+        for i, r in enumerate(rec):
+            got = {p: vid(v) for p, v in r.items()}
+            # values of batch length (also defaults: all values here are 2-row tensors) are passed row by row;
+            # row 1 of the value tagged `id` is id + CODE[name]
+            exp = {p: (vid(mapping[p][i]) if p in mapping else round(m.defaults[p] + i * CODE[p], 3)) for p in m.params}
+            if got != exp:
+                return [("C13|binding|%s|vectorized" % who, "%s: vectorised call, row %d: the function received %s, binding by name gives %s" % (head, i, got, exp))]
+        return []
 
     def call(self, w, mapping, as_points, exp, rec, head, who, kind):
         del rec[:]
